@@ -381,6 +381,9 @@ func ruleC10(w *World) {
 	if d == nil {
 		return
 	}
+	// R8: the index refusal does not depend on what the instance has already concluded
+	w.floor("C10.R8", 6)
+	w.ruleIndexRefusalUnconditional("C10.R8", d)
 	// R7: a refusal keeps its class through every relay
 	w.floor("C10.R7", 1) // sites merge when the relays share a wrapping helper
 	w.ruleErrorClassKept("C10.R7", d)
@@ -1841,6 +1844,40 @@ func ruleC07(w *World) {
 			}
 			w.check(okD && okMe, "C07.R7", fnKey(fn)+"/adopt-corrected-share", st.Pos(), "corrected share adopted only when the dealer stays qualified and the complaint was this participant's", "the private share is overwritten from a complaint answer without (¬disqualified ∧ complainer == me)", fs...)
 		})
+		// … in every arrival order: if each adoption in the answer intake sits under `vector already received`, the order
+		// (complaint, answer, vector) must adopt the share when the vector comes — in the vector intake
+		if n > 0 {
+			allUnderVector := true
+			instrs(fn, func(ins ssa.Instruction) {
+				st, ok := ins.(*ssa.Store)
+				if !ok {
+					return
+				}
+				if f := addrField(st.Addr); f == nil || f.Name() != "x" {
+					return
+				}
+				under := false
+				for _, f := range factStrings(w.factsAt(st)) {
+					if strings.HasSuffix(f, ".vAReceived == true") {
+						under = true
+					}
+				}
+				if !under {
+					allUnderVector = false
+				}
+			})
+			later := false
+			if vf := qualFns[d.role(d.qual, "vector")]; vf != nil && allUnderVector {
+				instrs(vf, func(ins ssa.Instruction) {
+					if st, ok := ins.(*ssa.Store); ok {
+						if f := addrField(st.Addr); f != nil && f.Name() == "x" {
+							later = true
+						}
+					}
+				})
+			}
+			w.check(!allUnderVector || later, "C07.R7", fnKey(fn)+"/adopt-in-every-order", fn.Pos(), "the corrected share is adopted whether the vector came before or after the answer", "the corrected share is adopted only when the verification vector was already received, and the vector intake does not adopt it later: with the order complaint, answer, vector the complainer keeps its old share while everybody else considers the complaint resolved")
+		}
 		if n == 0 {
 			w.viol("C07.R7", fnKey(fn)+"/adopt-corrected-share", fn.Pos(), "the publicly corrected share is never adopted")
 		}
@@ -2708,5 +2745,50 @@ func (w *World) ruleOwnComplaintRecorded(rule string, d *dkgAnchors) {
 	}
 	if n == 0 {
 		w.undecided(rule, "anchor:own-complaint", token.NoPos, "no function that files the participant's own complaint was found")
+	}
+}
+
+// ruleIndexRefusalUnconditional (C10.R8): "while running, out-of-range participant indices are refused with an
+// invalid-input error" — whatever else the instance has already concluded: every error-free return of the handlers that
+// take a participant index (HandleBroadcastMsg, HandlePrivateMsg, ForceDisqualify of the two VSS protocols) is dominated
+// by the facts that the index is in range. An early `return nil` placed before the range check (dealer already
+// disqualified, nothing to do) answers nil to an index the documentation says is refused.
+func (w *World) ruleIndexRefusalUnconditional(rule string, d *dkgAnchors) {
+	n := 0
+	for _, t := range []*types.Named{d.plain, d.qual} {
+		for _, mn := range []string{"HandleBroadcastMsg", "HandlePrivateMsg", "ForceDisqualify"} {
+			fn := w.method(t, mn)
+			if fn == nil || len(fn.Params) < 2 {
+				continue
+			}
+			idx := fn.Params[1]
+			if b, ok := idx.Type().Underlying().(*types.Basic); !ok || b.Info()&types.IsInteger == 0 {
+				continue
+			}
+			p := idx.Name()
+			k := 0
+			for _, r := range returns(fn) {
+				if len(r.Results) == 0 || !isNilConst(r.Results[len(r.Results)-1]) {
+					continue
+				}
+				n++
+				k++
+				lo, hi := false, false
+				var fs []string
+				for _, f := range w.factsAt(r) {
+					fs = append(fs, f.Expr)
+					if f.Expr == p+" >= 0" {
+						lo = true
+					}
+					if strings.HasPrefix(f.Expr, p+" < ") && (strings.HasSuffix(f.Expr, "size") || strings.HasSuffix(f.Expr, "Size()")) {
+						hi = true
+					}
+				}
+				w.check(lo && hi, rule, fmt.Sprintf("%s/error-free-return#%d/index-in-range", fnKey(fn), k), r.Pos(), "nil is returned only for an index that passed the range check", fmt.Sprintf("%s can return nil without `0 <= %s < size` having been established (conditions on this path: %v): an out-of-range index is answered with nil instead of the documented invalid-input error", fn.Name(), p, fs))
+			}
+		}
+	}
+	if n == 0 {
+		w.undecided(rule, "anchor:index-handlers", token.NoPos, "no error-free return found in the index-taking handlers")
 	}
 }
